@@ -42,8 +42,9 @@ def o_fromscratch(rec, world, hist):
         out.append(V("incremental-output", f"incremental run returned {canon(rec.result)[:300]}; from scratch: {canon(exp)[:300]}"))
         return out
     pure = pure_sources(world)
+    owned = store_owner(world)
     for name in sorted(world["stores"]):
-        if name in pure:
+        if name in pure or name not in owned:   # (a minimised world may keep the description of a store nobody owns)
             continue
         if hist.disk.mtime(name) is None:
             out.append(V("store-missing-after-run", f"store {name} holds nothing after a successful run"))
